@@ -17,7 +17,8 @@ THEOREMS = ["Hg.C06.noninterference", "Hg.C06.disjoint_noninterference"]
 CASES = {"quick": 260, "thorough": 8000}
 RULE = ("random tree, states a, b; every pure operation (a+b, a*f, f*a, zero, copy, JSON round trip) followed by every interleaving "
         "class of mutations (row fill, vectorised fill, +=) on the result and on the sources; read-only operations (==, hash, repr, "
-        "toJson); two independent constructions of the same tree (default arguments, template-made children); sharing relation "
+        "toJson); two independent constructions of the same tree (template-made children) and of one primitive through a random "
+        "construction route (class, .ing synonym, convenience constructor, df.hg_X method) relying on default arguments; sharing relation "
         "computed by identity over containers/dicts/lists; distinct = hash of parameters")
 SHRINK_LISTS = ["sa", "sb", "cont"]
 
@@ -31,7 +32,11 @@ def gen_params(rng, tier):
             r[0][gen.STR_COL] = "NaN"
         if not (r[1] > 0):
             r[1] = 0.0   # vectorised fills take non-negative weights only
-    return {"spec": spec, "sa": g(7), "sb": g(6), "cont": cont, "f": rng.choice([1.0, 1, 2.0, 0.5, 1.0, 3.0, 0.0]),
+    import ctors
+
+    ck = rng.choice(ctors.KINDS)
+    cxs = [rng.choice([-3.0, -2.0, -1.0, -0.5, 0.0, 0.5, 1.0, 2.0, 3.0, float("nan"), float("inf"), float("-inf")]) for _ in range(rng.randint(1, 6))]
+    return {"ctor": [ck, rng.choice(ctors.ROUTES), cxs], "spec": spec, "sa": g(7), "sb": g(6), "cont": cont, "f": rng.choice([1.0, 1, 2.0, 0.5, 1.0, 3.0, 0.0]),
             "order": rng.randint(0, 5),
             "np": any("q" in s for s in gen.walk(spec)) and not any(s["k"] == "Sum" for s in gen.walk(spec))}
 
@@ -43,6 +48,9 @@ def build(p):
     expect = []
     # independently constructed aggregators share nothing (default arguments, templates)
     ops.append(("noshare", "a", "b", "two separately constructed aggregators"))
+    # ... through every construction route, relying on default arguments
+    if p.get("ctor"):
+        ops.append(("ctors", p["ctor"][0], p["ctor"][1], p["ctor"][2]))
     # read-only operations
     ops += [("snap", "a0", "a"), ("snap", "b0", "b"), ("eq", "a", "b", 0, 0), ("hash", "a"), ("json", "a")]
     ops += [("checksnap", "a0", "a", "a read-only operation (==, hash, repr, toJson) changed its operand"),
